@@ -37,6 +37,9 @@ PARTIAL = [
     "(one that is not the state met in the previous/current data) is written exactly when the target / designated peer, different from "
     "the current peer, is pushed; that over a whole run the marks and the pushes correspond one to one is covered by the lock-step and "
     "oracle (c), not by a whole-run trace theorem (the result trace is also rewritten by par/fold bookkeeping)",
+    "history level: proved ONLY for straight-line scripts on several peers (call with literal target/service/function and literal or plain-scalar arguments, ap of a literal or scalar, seq, xor, match, mismatch, fail, null, never; model/NetLin.v): C19_linear_locality -- in every honest history of SeqLocal's network a request "
+    "is pending only for the next call of the sequential reading, alone, at the peer it is addressed to, and the invocations (logged with "
+    "the executing peer) are a prefix of the reading's calls; quiescence is NOT proved for that fragment either (a liveness statement)",
     "C19_requests_local: the exec-level statement says requests are only appended; that every appended request stems from a call "
     "addressed to the current peer is proved at the level of the call instruction (exec_call) -- a request does not carry its call site",
     "the farewell dedup goes through a HashSet in the code (arbitrary order); the model keeps first occurrences and the lock-step "
